@@ -93,7 +93,35 @@ def reeval_case(form, a1, a2, x):
     return isinstance(out, UsageError)
 
 
-GLB = {"sites_case": sites_case, "reeval_case": reeval_case, "__name__": "harness.c14"}
+TWIN_FILE = "from inline_snapshot import snapshot\n\n\ndef test_x():\n    res.append(v == snapshot())\n    for y in ys:\n        res.append(y <= snapshot())\n    res.append(v in snapshot({old}))\n"
+
+
+def two_files_case(has_old, a_vals, b_vals, c0):
+    """two test files with *identical* text (copied from one template) and different observed values: the call sites
+    of one file must not share state with the equal-looking call sites of the other (real plugin hooks)"""
+    world.install_plugin_shims()
+    world.reset({"c0": c0})
+    text = TWIN_FILE.format(old="[c0]" if has_old else "")
+    ga = {"v": a_vals[0], "ys": [a_vals[1], a_vals[2]], "res": []}
+    gb = {"v": b_vals[0], "ys": [b_vals[1], b_vals[2]], "res": []}
+    r = world.plugin_session({"test_a.py": text, "test_b.py": text}, cli="create,fix", per_file_globals={"test_a.py": ga, "test_b.py": gb})
+    if r.finish_error is not None or r.usage_error is not None:
+        return False
+    ok = True
+    for name, g in (("test_a.py", ga), ("test_b.py", gb)):
+        vals = world.snapshot_values(world.text_after(r, name))
+        hi = g["ys"][0] if g["ys"][0] >= g["ys"][1] else g["ys"][1]
+        if len(vals) != 3 or vals[0] is MISSING or vals[1] is MISSING or vals[2] is MISSING:
+            return False
+        if not (vals[0] == g["v"] and vals[1] == hi and g["v"] in vals[2]):
+            ok = False
+        if not has_old and not (vals[2] == [g["v"]]):
+            ok = False
+    PathLog.record("twofiles" + str(has_old) + str(sorted(r.written)), nontrivial=True, sample={"files": "two files with identical text", "rewritten_a": world.snapshot_arg_sources(world.text_after(r, "test_a.py")), "rewritten_b": world.snapshot_arg_sources(world.text_after(r, "test_b.py"))})
+    return ok
+
+
+GLB = {"two_files_case": two_files_case, "sites_case": sites_case, "reeval_case": reeval_case, "__name__": "harness.c14"}
 
 
 def conditions(tier):
@@ -119,6 +147,11 @@ def conditions(tier):
         name = f"reeval_{form}"
         conds.append(Cond(name, mkfn(name, [("a1", "int"), ("a2", "int"), ("x", "int")], f"return reeval_case({form!r}, a1, a2, x)", GLB), timeout=600, group="reeval",
                           bounds=f"snapshot argument form `{form}` re-evaluated with a possibly different value (symbolic)"))
+    for has_old in (False, True):
+        name = f"two_identical_files_{'old' if has_old else 'new'}"
+        params = [(n, "int") for n in ["a0", "a1", "a2", "b0", "b1", "b2", "c0"]]
+        conds.append(Cond(name, mkfn(name, params, f"return two_files_case({has_old}, [a0, a1, a2], [b0, b1, b2], c0)", GLB), timeout=900, group="two-files",
+                          bounds="two test files with byte-identical text (equal code objects) and different symbolic observations, real plugin hooks, create+fix"))
     tw = mkfn("sites_twin", [("k0", "int"), ("k1", "int"), ("x0", "int"), ("x1", "int")], "return sites_case('one_line', False, [k0, k1], [x0, x1], [], {'create'})", GLB, pre=["0 <= k0 <= 2 and 0 <= k1 <= 2"], post="not _")
     conds.append(Cond("sites_twin", tw, timeout=60, twin=True))
     return conds
